@@ -4,13 +4,16 @@ class CompilerError(Exception):
 
     def __init__(self, filename, ctx, msg):
         '''filename is the filename in which the error occured, ctx is an ANTLR
-        context, and msg is the error message.'''
+        context (or None if the position is not known), and msg is the error
+        message.'''
         self.filename = filename
-        self.line = ctx.start.line
-        self.column = ctx.start.column
+        self.line = ctx.start.line if ctx is not None else None
+        self.column = ctx.start.column if ctx is not None else None
         self.message = msg
 
     def __str__(self):
+        if self.line is None:
+            return f'{self.filename}:{self.message}'
         return f'{self.filename}:{self.line}:{self.column}:{self.message}'
 
 
